@@ -2,3 +2,5 @@ import Sparrow.Model.Basic
 import Sparrow.Model.Hist
 import Sparrow.Model.Exchange
 import Sparrow.Model.Collect
+import Sparrow.Model.Vec
+import Sparrow.Model.Bake
